@@ -352,9 +352,6 @@ def case_heal(ctx, case, be=None):
                f'heal: {len(added_impl)} new edges but {len(roots0)} -> {nroots} fragments {tag}', case)
     w = ctx.ask('f.wf ' + G.wire_neuron(y))
     ctx.oracle(w == '1 1', f'heal result not a well-formed, correctly labelled forest (wf labels = {w}) {tag}', case)
-    md2 = 'inf' if case['max_dist'] is None else str(case['max_dist'] ** 2)
-    ok = ctx.ask(f"c11.healok {md2} | {G.wire_rows(rows)} | {G.wire_neuron(y, labels=False)}")
-    ctx.oracle(ok == '1', f'Lean checker healOKB rejects navis\' result (max_dist²={md2}) {tag}', case)
     byid = {r['id']: r for r in rows}
     unlimited = case['max_dist'] is None and case['min_size'] is None and mask is None
     if unlimited:
@@ -368,6 +365,9 @@ def case_heal(ctx, case, be=None):
     for a, b in added_impl:
         ctx.oracle(a in alset and b in alset, f'heal added edge {a}-{b} uses a node outside method/min_size/mask {tag}', case)
         ctx.oracle(fm[a] != fm[b], f'heal added edge {a}-{b} inside one fragment {tag}', case)
+    md2 = 'inf' if case['max_dist'] is None else str(case['max_dist'] ** 2)
+    ok = ctx.ask(f"c11.healok {md2} | {G.wire_rows(rows)} | {G.wire_neuron(y, labels=False)}")
+    ctx.oracle(ok == '1', f'Lean checker healOKB rejects navis\' result (max_dist²={md2}) {tag}', case)
     # minimality (TEST): exhaustive enumeration of spanning forests of the quotient graph
     frs = sorted(set(fm.values()))
     if len(frs) <= 6:
@@ -749,9 +749,9 @@ def _run_case(ctx, kind, case, be):
         ctx.count('labeling', m['labeling'])
     if be:
         with backend(be):
-            RUNNERS[kind](ctx, case, be)
+            RUNNERS[kind](ctx, c, be)
     else:
-        RUNNERS[kind](ctx, case, None)
+        RUNNERS[kind](ctx, c, None)
 
 
 def run(ctx, be=None):
@@ -791,9 +791,8 @@ def replay(ctx, rp):
     ctx.case(case)
     kind = case['kind']
     be = case.get('be')
-    body = {k: v for k, v in case.items() if k not in ('kind', 'be')}
     if be:
         with backend(be):
-            RUNNERS[kind](ctx, body, be)
+            RUNNERS[kind](ctx, case, be)
     else:
-        RUNNERS[kind](ctx, body, None)
+        RUNNERS[kind](ctx, case, None)
